@@ -49,6 +49,18 @@
    handle_write flushes through _flush_some_if_lockable in both of its branches).  Code between two steps touches only
    thread-local data (checked by the shape audit in harness/chanflow.py).
 
+   WHICH STEP IS WHICH STATEMENT: harness/chanflow.py EXPECTED_SHAPE lists, per method, the
+   lock scopes / tests / tracked attribute accesses / calls in source order (the shape audit
+   compares it with the ast of the tree under test); the step functions below follow that
+   order, with the line numbers of channel.py in their comments.
+
+   SHAPE FLAGS.  Three statements were repaired while this model was written (KNOWN_FINDINGS.txt,
+   "fixed: property=C12"): the notify test of _flush_some_if_lockable (fx_notify_le), the flush
+   condition of handle_write (fx_drain), the re-test of connected in
+   _flush_outbufs_below_high_watermark (fx_recheck).  [fixed p] (all true) is the code as it is
+   and is what the harness runs the model with; a flag set to false gives the old statement, for
+   which Props/C12.v keeps the refutation.  The bound and order theorems hold for every flag.
+
    ABSTRACTIONS, AND WHY THEY ARE SOUND FOR C12
    * Bytes are counted, not stored: [pending] is the number of bytes held by
      self.outbufs, [appended] / [wire] count bytes accepted from the application /
